@@ -6,7 +6,7 @@
     statement about [run sched (init ...)] for all [sched] is a statement about every
     reachable configuration. *)
 From GV Require Export Conc.Ops Conc.Run.
-From GV Require Export Conc.ProofsSem Conc.ProofsIds Conc.ProofsTm Conc.ProofsBuf Conc.ProofsRdf Conc.ProofsLock Conc.ProofsSeq Conc.ProofsAll.
+From GV Require Export Conc.ProofsSem Conc.ProofsIds Conc.ProofsTm Conc.ProofsBuf Conc.ProofsRdf Conc.ProofsLock Conc.ProofsSeq Conc.ProofsAll Conc.ProofsAdj.
 From Coq Require Export ZArith List Bool Sorted.
 Export ListNotations.
 Open Scope Z_scope.
@@ -114,6 +114,27 @@ Theorem edge_torn_refuted :
     ~ In 2 (map (fun x => fst (fst x)) (live_edges (sh c))).
 Proof. exact edge_torn_refuted_l. Qed.
 Print Assumptions edge_torn_refuted.
+
+(** the adjacency lists agree with the edge map after every complete run: every number of threads,
+    every schedule, every program whose delete_edge calls name edges of the (well-formed) starting
+    graph — the complement of the class of [edge_torn_refuted]; and the resulting graph is again a
+    well-formed starting graph *)
+Theorem adjacency_consistent_outside_K : forall g0 progs sched,
+  wf_adj g0 -> deletes_below (g_next_edge g0) progs = true ->
+  let c := grun sched (ginit g0 progs) in
+  finished c = true ->
+  forall s d e,
+    (In (s, d, e) (adj_visible (g_fwd (sh c)) (g_fwd_del (sh c))) <-> In (e, s, d) (live_edges (sh c))) /\
+    (In (d, s, e) (adj_visible (g_bwd (sh c)) (g_bwd_del (sh c))) <-> In (e, s, d) (live_edges (sh c))).
+Proof. exact adjacency_consistent_outside_K_l. Qed.
+Print Assumptions adjacency_consistent_outside_K.
+
+Theorem adjacency_wf_preserved : forall g0 progs sched,
+  wf_adj g0 -> deletes_below (g_next_edge g0) progs = true ->
+  let c := grun sched (ginit g0 progs) in
+  finished c = true -> wf_adj (sh c).
+Proof. exact wf_adj_of_run. Qed.
+Print Assumptions adjacency_wf_preserved.
 
 Theorem prop_index_torn_refuted :
   exists progs sched, progs = [[PSetProp 0 1]; [PSetProp 0 2]] /\ sched = [0; 1; 0; 0; 0; 1; 1; 1]%nat /\
@@ -224,6 +245,10 @@ Example nv_pairs : In (GAddLabel 0 2) lpg_templates /\ In (GCreateEdge 0 1) lpg_
   k_label [[GAddLabel 0 2]; [GCreateEdge 0 1]] = false /\ k_edge_torn 2 [[GAddLabel 0 2]; [GCreateEdge 0 1]] = false /\
   finished (grun (round_robin 2 6) (ginit (gsetup lpg_setup) [[GAddLabel 0 2]; [GCreateEdge 0 1]])) = true.
 Proof. vm_compute. tauto. Qed.
+Example nv_adj : wf_adj lpg0 /\ wf_adj g_three_nodes /\
+  deletes_below (g_next_edge g_three_nodes) [[GCreateEdge 2 0; GDeleteEdge 0]; [GDeleteEdge 0; GCreateEdge 0 2]; [GDeleteEdge 1]] = true /\
+  finished (grun (round_robin 3 12) (ginit g_three_nodes [[GCreateEdge 2 0; GDeleteEdge 0]; [GDeleteEdge 0; GCreateEdge 0 2]; [GDeleteEdge 1]])) = true.
+Proof. split; [exact wf_adj_lpg0|]. split; [exact wf_adj_three_nodes|]. exact nv_adjacency. Qed.
 Example nv_commits :
   let c := mrun (round_robin 2 10) (minit [[MBegin 0; MCommitOp 0]; [MBegin 0; MCommitOp 0; MCommitOp 0]]) in
   finished c = true /\ all_commit_epochs c = [1; 2].
